@@ -36,7 +36,10 @@ CLAIM = {
             "ResourceManager.graph of the manager found among the context's private attributes, networkx behaviour as "
             "modelled by Kahn.v (only validity of its order is needed, not equality).",
 }
-RULE = ("graphs: corpus (F-Q shape in two supply orders, cycles through a stream / modifier / pipeline source, every "
+RULE = ("graphs: corpus (every API entry point - initializes_simulants, initialization_requirements, register_value_producer, "
+        "register_rate_producer, register_value_modifier, time.register_step_size_modifier, pipelines as sources / modifiers - "
+        "x each requires_* keyword alone and all three mixed, consumer shallow / producer 3 deep, keyword and positional "
+        "calls; results stratifications / observations; F-Q shape in two supply orders, cycles through a stream / modifier / pipeline source, every "
         "duplicate kind, unmet requirements, null initializers, raw registrations) then random programs of 1-8 (thorough: "
         "1-12) probe components over ranked entities (initializers, pipelines with function / pipeline sources and "
         "modifiers, streams with CRN key columns, raw add_resources calls), declarations distributed over components "
@@ -236,19 +239,33 @@ def _classes():
             mod.__name__ = f"mod_{j}"
             return types.MethodType(mod, self)
 
+        def _step_modifier(self, j):
+            import pandas as pd
+
+            def mod(slf, index):
+                return pd.Series(pd.Timedelta(days=1), index=index)
+            mod.__name__ = f"mod_{j}"
+            return types.MethodType(mod, self)
+
         def setup(self, builder):
             nmod = 0
+            pos = bool(self.spec.get("pos"))          # positional calls (documented parameter order) instead of keywords
+
+            def reqs(f, head, rc, rv, rs):
+                if pos:
+                    return f(*head, list(rc), list(rv), list(rs))
+                return f(*head, requires_columns=list(rc), requires_values=list(rv), requires_streams=list(rs))
             for call in self.spec["calls"]:
                 kind = call[0]
                 if kind == "init":
                     _, creates, rc, rv, rs = call
-                    builder.population.initializes_simulants(self._initializer(self.spec["name"]), creates_columns=creates,
-                                                             requires_columns=rc, requires_values=rv, requires_streams=rs)
-                elif kind == "producer":
+                    reqs(builder.population.initializes_simulants, (self._initializer(self.spec["name"]), list(creates)),
+                         rc, rv, rs)
+                elif kind in ("producer", "rate_producer"):
                     _, v, src, rc, rv, rs = call
                     source = builder.value.get_value(src) if src is not None else (lambda index: None)
-                    builder.value.register_value_producer(v, source=source, requires_columns=rc, requires_values=rv,
-                                                          requires_streams=rs)
+                    f = builder.value.register_value_producer if kind == "producer" else builder.value.register_rate_producer
+                    reqs(f, (v, source), rc, rv, rs)
                 elif kind == "modifier":
                     _, v, mut, rc, rv, rs = call
                     if mut is not None:
@@ -256,12 +273,22 @@ def _classes():
                     else:
                         nmod += 1
                         modifier = self._modifier(nmod)
-                    builder.value.register_value_modifier(v, modifier, requires_columns=rc, requires_values=rv,
-                                                          requires_streams=rs)
+                    reqs(builder.value.register_value_modifier, (v, modifier), rc, rv, rs)
+                elif kind == "step_modifier":
+                    _, rc, rv, rs = call
+                    nmod += 1
+                    reqs(builder.time.register_step_size_modifier, (self._step_modifier(nmod),), rc, rv, rs)
                 elif kind == "get_value":
                     builder.value.get_value(call[1])
                 elif kind == "stream":
                     builder.randomness.get_stream(call[1], initializes_crn_attributes=bool(call[2]))
+                elif kind == "strat":
+                    _, nm, rc, rv = call
+                    builder.results.register_stratification(nm, ["a", "b"], mapper=lambda df: "a", is_vectorized=True,
+                                                            requires_columns=list(rc), requires_values=list(rv))
+                elif kind == "observe":
+                    _, nm, rc, rv = call
+                    builder.results.register_adding_observation(nm, requires_columns=list(rc), requires_values=list(rv))
                 elif kind == "raw":
                     _, typ, names, deps, pid = call
                     builder.resources.add_resources(typ, list(names), self._initializer(f"raw{pid}"), list(deps))
@@ -296,6 +323,9 @@ def _classes():
             self.creator = builder.population.get_simulant_creator()
 
         def on_time_step(self, event):
+            self.birth()
+
+        def birth(self):
             if self.run["births"]:
                 k = self.run["births"].pop(0)
                 self.run["marks"].append(len(self.run["log"]))
@@ -343,19 +373,52 @@ def classify(e):
 # ----------------------------------------------------------------------------------------------------------------
 # the program as API-level declarations (call order), for Coq and for the oracle
 # ----------------------------------------------------------------------------------------------------------------
+RESULTS_BUILTINS = {"event_time", "current_time", "event_step_size"}
+
+
+def step_size_pipeline():
+    """name of the clock's step-size pipeline (the first pipeline the framework itself produces)"""
+    for d in ambient()["decls"]:
+        if d[0] == "producer":
+            return d[1]
+    raise RuntimeError("C09 harness: the framework produces no step-size pipeline")
+
+
+def translate(call, comp_name):
+    """one builder call -> the API-level declarations of the model's language (documented rules):
+       register_rate_producer = register_value_producer; builder.time.register_step_size_modifier = a modifier of the
+       clock's step-size pipeline; a stratification / observation requests (get_value) every value it requires."""
+    kind = call[0]
+    if kind == "init":
+        return [["init", comp_name] + list(call[1:])]
+    if kind == "rate_producer":
+        return [["producer"] + list(call[1:])]
+    if kind == "step_modifier":
+        return [["modifier", step_size_pipeline(), None] + list(call[1:])]
+    if kind in ("strat", "observe"):
+        seen, out = set(), []
+        for v in call[3]:
+            if v not in seen and v not in RESULTS_BUILTINS:
+                seen.add(v)
+                out.append(["get_value", v])
+        return out
+    return [list(call)]
+
+
 def declarations(case):
-    """[(kind, ...)] in the order the calls are made: the framework's own first, then each component's setup calls,
-    then its automatic initializer registration."""
+    """-> (decls, owners): the declarations in the order the calls are made - the framework's own first, then each
+    component's setup calls, then its automatic initializer registration - and the component making each."""
     out = [list(d) for d in ambient()["decls"]]
+    owners = [None] * len(out)
     for comp in case["comps"]:
         for call in comp["calls"]:
-            if call[0] == "init":
-                out.append(["init", comp["name"]] + list(call[1:]))
-            else:
-                out.append(list(call))
+            ds = translate(call, comp["name"])
+            out += ds
+            owners += [comp["name"]] * len(ds)
         if comp.get("auto") is not None:
             out.append(["init", comp["name"]] + list(comp["auto"]))
-    return out
+            owners.append(comp["name"])
+    return out, owners
 
 
 def coq_decl(ids, d, amb_ids):
@@ -540,23 +603,16 @@ def canonical(case):
                 call = call[:4] + [pid]
                 pid += 1
             calls.append(call)
-        comps.append({"name": comp["name"], "calls": calls, "auto": comp.get("auto")})
+        comps.append({"name": comp["name"], "calls": calls, "auto": comp.get("auto"), "pos": bool(comp.get("pos"))})
     return {"kc": list(case.get("kc", [])), "comps": comps, "mode": case.get("mode", "?")}
 
 
-def with_fun_ids(decls, case, ids):
-    """append to every modifier declaration the id of its function name "<component>.mod_<j>" """
-    out = []
-    amb = len(ambient()["decls"])
-    k = 0
-    owners = []
-    for comp in case["comps"]:
-        n = len(comp["calls"]) + (1 if comp.get("auto") is not None else 0)
-        owners += [comp["name"]] * n
-    counts = {}
-    for i, d in enumerate(decls):
+def with_fun_ids(decls, owners, ids):
+    """append to every modifier declaration the id of its function name "<component>.mod_<j>" (j-th function modifier
+    - value or step-size - the component registers)"""
+    out, counts = [], {}
+    for d, owner in zip(decls, owners):
         if d[0] == "modifier":
-            owner = owners[i - amb]
             if d[2] is None:
                 counts[owner] = counts.get(owner, 0) + 1
                 out.append(d[:6] + [ids.f(f"{owner}.mod_{counts[owner]}")])
@@ -575,11 +631,12 @@ def run_graph(case):
     amb_ids = {}
     for _, _, name in amb["inits"]:
         amb_ids.setdefault(name, 100 + len(amb_ids))
-    decls = with_fun_ids(declarations(case), case, ids)
+    decls = with_fun_ids(*declarations(case), ids)
     kc = list(case["kc"])
     Probe, AutoProbe, Birther = _classes()
     run = {"log": [], "births": list(BIRTHS), "marks": [], "born": []}
     comps = [(AutoProbe if c.get("auto") is not None else Probe)(c, run) for c in case["comps"]] + [Birther(run)]
+    has_results = any(c[0] in ("strat", "observe") for comp in case["comps"] for c in comp["calls"])
     config = dict(CONFIG)
     config["randomness"] = {"key_columns": kc}
     boot.reset_contexts()
@@ -597,7 +654,10 @@ def run_graph(case):
             stage = "step"
             n0 = CONFIG["population"]["population_size"]
             for k in BIRTHS:
-                sim.step()
+                if has_results:
+                    comps[-1].birth()      # results gathering would read the probes' undeclared data: births without stepping
+                else:
+                    sim.step()
             for j, k in enumerate(BIRTHS):
                 a, b = run["marks"][2 * j], run["marks"][2 * j + 1]
                 creations.append((run["born"][j], run["log"][a:b]))
@@ -678,7 +738,10 @@ def run_graph(case):
     n = len(case["comps"])
     tags = (f"mode_{case['mode']}", f"outcome_{'ok' if code == 0 else 'err' + str(code)}",
             f"comps_{'0' if n == 0 else '1-3' if n <= 3 else '4-6' if n <= 6 else '7+'}",
-            f"decls_{min(len(decls) // 10 * 10, 40)}+") + tuple(sorted({f"decl_{d[0]}" for d in decls}))
+            f"decls_{min(len(decls) // 10 * 10, 40)}+") + tuple(sorted({f"decl_{d[0]}" for d in decls})) + \
+        tuple(sorted({f"call_{c[0]}" for comp in case["comps"] for c in comp["calls"]}
+                     | {"call_auto_requirements" for comp in case["comps"] if comp.get("auto") is not None}
+                     | {"style_positional" if comp.get("pos") else "style_keyword" for comp in case["comps"]}))
     return Result(ok=ok, msg=msg, coq=coq, key=(case["kc"], case["comps"]) if n else None, obs=obs, tags=tags)
 
 
@@ -719,6 +782,8 @@ class Prog:
         rng = self.rng
         rc, rv, rs = [], [], []
         k = rng.choice([0, 1, 1, 2, 2, maxn]) if pool else 0
+        if rng.random() < 0.5:
+            pool = pool[-4:]                                      # prefer the deepest entities: long chains
         for kind, name in rng.sample(pool, min(k, len(pool))):
             (rc if kind == "col" else rv if kind == "val" else rs).append(name)
         if rng.random() < unmet:
@@ -751,9 +816,10 @@ class Prog:
         vals = [n for k, n in pool if k == "val"]
         r = rng.random()
         if r < 0.25 and vals:
-            self.loose.append(["producer", v, rng.choice(vals), [], [], []])      # a pipeline as the source
+            self.loose.append([rng.choice(["producer", "producer", "rate_producer"]), v, rng.choice(vals), [], [], []])
         elif r < 0.92:
-            self.loose.append(["producer", v, None, *self.pick_reqs(pool, unmet=unmet)])
+            self.loose.append([rng.choice(["producer", "producer", "rate_producer"]), v, None,
+                               *self.pick_reqs(pool, unmet=unmet)])
         # else: never sourced (missing_value_source)
         for _ in range(rng.choice([0, 0, 1, 1, 2, 3])):
             if rng.random() < 0.2 and vals:
@@ -765,6 +831,24 @@ class Prog:
         self.entities.append(("val", v))
         return v
 
+    def add_step_modifiers(self, pool, unmet):
+        """builder.time.register_step_size_modifier: the clock's pipeline becomes an entity others can require"""
+        for _ in range(self.rng.choice([1, 1, 2])):
+            self.loose.append(["step_modifier", *self.pick_reqs(pool, unmet=unmet)])
+        self.entities.append(("val", step_size_pipeline()))
+
+    def add_results(self, pool):
+        rng = self.rng
+        rc, rv, _ = self.pick_reqs([e for e in pool if e[0] != "str"], unmet=0.0)
+        if rng.random() < 0.4:
+            rv.append(f"v{90 + rng.randint(0, 3)}")
+        if rng.random() < 0.3:
+            rv.append("current_time")
+        if not rc and not [v for v in rv if v != "current_time"]:
+            rv.append(f"v{90 + rng.randint(0, 3)}")             # a stratification must name at least one source
+        self.nres = getattr(self, "nres", 0) + 1
+        self.loose.append([rng.choice(["strat", "observe"]), f"r{self.nres}", rc, rv])
+
     def add_stream(self):
         s = self.stream()
         crn = self.rng.random() < 0.15
@@ -774,8 +858,14 @@ class Prog:
 
 
 def gen_program(rng, max_comps=8):
-    mode = rng.choices(["dag", "cycle", "dup", "random"], weights=[50, 25, 15, 10])[0]
+    mode = rng.choices(["dag", "cycle", "dup", "random", "chain"], weights=[40, 22, 13, 10, 15])[0]
+    if mode == "chain":
+        c = chain_case(rng.choice(ENTRY_POINTS), rng.choice(KEYWORD_SETS), rng.random() < 0.5, rng.randint(1, 4))
+        rng.shuffle(c["comps"])
+        return c
     P = Prog(rng, max_comps)
+    step_at = rng.randint(1, 6) if rng.random() < 0.3 else -1
+    results_at = rng.randint(0, 6) if rng.random() < 0.15 else -1
     unmet = rng.choice([0.0, 0.0, 0.15, 0.4])
     n_items = rng.randint(1, max(1, max_comps + 3))
     n_init = 0
@@ -785,6 +875,10 @@ def gen_program(rng, max_comps=8):
         if mode == "random" and rng.random() < 0.5:
             # requirements regardless of rank (names that may be created later, or never)
             pool = pool + [("col", f"c{rng.randint(1, 8)}"), ("val", f"v{rng.randint(1, 5)}"), ("str", f"s{rng.randint(1, 3)}")]
+        if i == step_at and not any(d[0] == "step_modifier" for d in P.loose):
+            P.add_step_modifiers(pool, unmet)
+        if i == results_at:
+            P.add_results(pool)
         r = rng.random()
         if (r < 0.5 and n_init < max_comps) or i == 0:
             P.add_init(pool, unmet)
@@ -822,7 +916,7 @@ def gen_program(rng, max_comps=8):
     names = list(P.inits)
     while len(names) < 1 or (P.loose and rng.random() < 0.25 and len(names) < max_comps + 2):
         names.append(P.comp())
-    comps = {n: {"name": n, "calls": [], "auto": None} for n in names}
+    comps = {n: {"name": n, "calls": [], "auto": None, "pos": rng.random() < 0.3} for n in names}
     for d in P.loose:
         comps[rng.choice(names)]["calls"].append(d)
     for n, spec in P.inits.items():
@@ -852,15 +946,18 @@ def plant_cycle(P, rng):
     for _ in range(rng.randint(0, 3)):
         kind = cur[0]
         rc, rv, rs = ([cur[1]], [], []) if kind == "col" else ([], [cur[1]], []) if kind == "val" else ([], [], [cur[1]])
-        ch = rng.choice(["init", "src", "mod", "pipe_src", "pipe_mod", "stream"])
+        ch = rng.choice(["init", "src", "mod", "pipe_src", "pipe_mod", "stream", "step_mod", "rate"])
         if ch == "init":
             n, c = P.comp(), P.col()
             P.inits[n] = [[c], rc, rv, rs]
             cur = ("col", c)
-        elif ch == "src":
+        elif ch in ("src", "rate"):
             v = P.val()
-            P.loose.append(["producer", v, None, rc, rv, rs])
+            P.loose.append(["producer" if ch == "src" else "rate_producer", v, None, rc, rv, rs])
             cur = ("val", v)
+        elif ch == "step_mod":
+            P.loose.append(["step_modifier", rc, rv, rs])
+            cur = ("val", step_size_pipeline())
         elif ch == "mod":
             v = P.val()
             if rng.random() < 0.7:
@@ -922,6 +1019,75 @@ def plant_duplicate(P, rng):
         P.loose.append(["raw", rng.choice(["bogus", "null", "columns"]), [P.col()] if rng.random() < 0.5 else [], []])
 
 
+ENTRY_POINTS = ["init_call", "init_auto", "producer", "rate_producer", "modifier", "step_modifier", "pipe_source",
+                "pipe_modifier"]
+KEYWORD_SETS = [("col",), ("val",), ("str",), ("col", "val"), ("col", "str"), ("val", "str"), ("col", "val", "str")]
+
+
+def chain_case(entry, keywords, pos, depth):
+    """A shallow consumer initializer (supplied first) whose requirement reaches - through the API entry point `entry`
+    and each of the requires_* keywords in `keywords` separately - the LAST column of its own chain
+    root -> ... -> base of `depth` initializers (supplied last): a dropped or swapped requirement changes the order."""
+    n = {"c": 0, "p": 1, "v": 0, "s": 0}
+
+    def fresh(k):
+        n[k] += 1
+        return f"{k}{n[k]}"
+    chains, kc = [], []
+
+    def chain():
+        prev, out = None, []
+        for _ in range(depth):
+            c = fresh("c")
+            out.append({"name": fresh("p"), "calls": [], "auto": [[c], [prev] if prev else [], [], []], "pos": False})
+            prev = c
+        chains.append(out)
+        return prev
+    helper = {"name": fresh("p"), "calls": [], "auto": None, "pos": pos}          # p2: declares the auxiliary values / streams
+    rc, rv, rs = [], [], []
+    for k in keywords:
+        base = chain()
+        if k == "col":
+            rc.append(base)
+        elif k == "val":
+            w = fresh("v")
+            helper["calls"].append(["producer", w, None, [base], [], []])
+            rv.append(w)
+        else:
+            s_ = fresh("s")
+            helper["calls"].append(["stream", s_, False])
+            kc.append(base)
+            rs.append(s_)
+    consumer = {"name": "p1", "calls": [], "auto": None, "pos": pos}
+    own = fresh("c")
+    if entry in ("init_call", "init_auto"):
+        need = [rc, rv, rs]
+    else:
+        if entry == "step_modifier":
+            target = step_size_pipeline()
+            helper["calls"].append(["step_modifier", rc, rv, rs])
+        else:
+            target = fresh("v")
+            if entry in ("producer", "rate_producer"):
+                helper["calls"].append([entry, target, None, rc, rv, rs])
+            elif entry == "modifier":
+                helper["calls"] += [["modifier", target, None, rc, rv, rs], ["producer", target, None, [], [], []]]
+            else:
+                u = fresh("v")
+                if entry == "pipe_source":
+                    helper["calls"] += [["producer", target, u, [], [], []], ["rate_producer", u, None, rc, rv, rs]]
+                else:
+                    helper["calls"] += [["modifier", target, u, [], [], []], ["producer", target, None, [], [], []],
+                                        ["producer", u, None, rc, rv, rs]]
+        need = [[], [target], []]
+    if entry == "init_call":
+        consumer["calls"].append(["init", [own]] + need)
+    else:
+        consumer["auto"] = [[own]] + need
+    comps = [consumer, helper] + [c for ch in chains for c in reversed(ch)]
+    return {"kc": kc, "comps": comps, "mode": "chain"}
+
+
 def gen_quick(rng):
     return gen_program(rng, max_comps=rng.choice([2, 4, 6, 8]))
 
@@ -975,6 +1141,21 @@ def corpus():
                                         comp("p2", [["raw", "column", [], ["column.c1"]], ["raw", "missing_value_source", ["v3"], ["column.c1"]]],
                                              auto=[["c1"], [], [], []])], "mode": "corpus_unmet"})
     out.append({"kc": [], "comps": [], "mode": "corpus_empty"})
+    # every API entry point x every requires_* keyword alone and all three mixed, consumer shallow / producer deep,
+    # keyword and positional call styles
+    i = 0
+    for entry in ENTRY_POINTS:
+        for kws in (("col",), ("val",), ("str",), ("col", "val", "str")):
+            i += 1
+            c = chain_case(entry, kws, pos=bool(i % 2), depth=3)
+            c["mode"] = "corpus_chain"
+            out.append(c)
+    # results declarations request pipelines (value.<v> nodes with a missing source); a cycle through a step-size modifier
+    out.append({"kc": [], "comps": [comp("p1", [["strat", "r1", ["c1"], ["v1", "v2", "current_time"]], ["observe", "r2", [], ["v3", "v1"]],
+                                                ["producer", "v2", None, ["c2"], [], []]], auto=[["c1"], [], ["v2", "v3"], []]),
+                                    comp("p2", auto=[["c2"], [], [], []])], "mode": "corpus_results"})
+    out.append({"kc": [], "comps": [comp("p1", [["step_modifier", ["c1"], [], []]], auto=[["c1"], [], ["simulant_step_size"], []])],
+                "mode": "corpus_cycle"})
     return out
 
 
